@@ -26,6 +26,11 @@ def tokenizer(name):
             _TOK[name] = default_tokenizer
         else:
             d = os.environ.get("VERIF_HS_CACHE") or tempfile.mkdtemp(prefix="hs")
+            # history: the default Hyperscan tokenizer is never the FIRST Hyperscan tokenizer of the process -- one over
+            # a custom extractor list (same cache directory) is built and used before it
+            from eyecite.tokenizers import EXTRACTORS
+            other = HyperscanTokenizer(cache_dir=d, extractors=list(reversed(EXTRACTORS[-5:])) + EXTRACTORS[:40:8])
+            other.tokenize("See Foo, supra, at 5; id. § 3.")
             _TOK[name] = HyperscanTokenizer(cache_dir=d)
     return _TOK[name]
 
@@ -637,7 +642,7 @@ def run_forms(payload):
         text = it["text"]
         o = {"raised": "", "obs": [], "nrefs": 0, "ties": False}
         try:
-            cs = extract(text, "aho", remove_ambiguous=it.get("ra", False))
+            cs = extract(text, it.get("tok", "aho"), remove_ambiguous=it.get("ra", False))
             for c in cs:
                 if isinstance(c, ReferenceCitation):
                     o["nrefs"] += 1
